@@ -311,14 +311,20 @@ template <typename Type>
 inline typename Enable_If<Is_Singleton<Type>::value
                           || Is_Interval<Type>::value, bool>::type
 Interval<Boundary, Info>::can_be_exactly_joined_to(const Type& x) const {
-  PPL_DIRTY_TEMP(Boundary, b);
+  // When the two intervals do not overlap, the join is exact if and only
+  // if they are adjacent: the facing boundaries have the same value and
+  // are not both open (they cannot be both closed, otherwise the
+  // intervals would overlap).  Note: Boundary_NS::eq() on boundaries of
+  // different types is false as soon as one of them is open.
   if (gt(LOWER, lower(), info(), UPPER, f_upper(x), f_info(x))) {
-    b = lower();
-    return eq(LOWER, b, info(), UPPER, f_upper(x), f_info(x));
+    return equal(lower(), f_upper(x))
+      && !(is_open(LOWER, lower(), info())
+           && is_open(UPPER, f_upper(x), f_info(x)));
   }
   else if (lt(UPPER, upper(), info(), LOWER, f_lower(x), f_info(x))) {
-    b = upper();
-    return eq(UPPER, b, info(), LOWER, f_lower(x), f_info(x));
+    return equal(upper(), f_lower(x))
+      && !(is_open(UPPER, upper(), info())
+           && is_open(LOWER, f_lower(x), f_info(x)));
   }
   return true;
 }
